@@ -187,12 +187,18 @@ def run(res, proof):
     from dsdobjects.dsdparser import parse_pil_string, parse_pil_file, parse_seesaw_string
     docs = [c for c in cases if c[0] == 'document'][:40 if quick else 400]
     tmpdir = tempfile.mkdtemp(prefix='verif_c13_')
+    same_hist = []
     try:
         for k, (lab, txt, exp) in enumerate(docs):
             res.evaluations += 1
-            p = os.path.join(tmpdir, 'd%d.pil' % k)
+            # two documents out of three reuse one path with an unchanged timestamp (a file that is rewritten in place:
+            # what the parser returns must be the parse of what the file contains now)
+            p = os.path.join(tmpdir, 'same.pil' if k % 3 else 'd%d.pil' % k)
+            if k % 3:
+                same_hist.append(txt)
             with open(p, 'w', newline='') as f:
                 f.write(txt)
+            os.utime(p, (1000000000, 1000000000))
             try:
                 a = parse_pil_string(txt)
                 if rng.random() < 0.5:
@@ -203,7 +209,8 @@ def run(res, proof):
                 b = parse_pil_file(p)
                 c = parse_pil_string(txt)
                 if not (a == b == c):
-                    res.violation('file-or-history-dependence', {'text': txt}, 'string / file / repeated parse differ', 'equal results')
+                    res.violation('file-or-history-dependence', {'text': txt, 'file_history': list(same_hist) if k % 3 else [txt]},
+                                  'string / file / repeated parse differ', 'equal results')
             except Exception as e:
                 res.violation('file-parse-raises:' + type(e).__name__, {'text': txt}, type(e).__name__, 'equal results')
             finally:
@@ -232,8 +239,26 @@ def run(res, proof):
 
 
 def replay(body, repo):
-    from dsdobjects.dsdparser import parse_pil_string
+    from dsdobjects.dsdparser import parse_pil_string, parse_pil_file
     txt = body['input']['text']
+    if body['input'].get('file_history'):
+        # the same path rewritten in place with an unchanged timestamp; file parse vs string parse after every rewrite
+        d = tempfile.mkdtemp(prefix='verif_c13_replay_')
+        p = os.path.join(d, 'same.pil')
+        try:
+            for i, t in enumerate(body['input']['file_history']):
+                with open(p, 'w', newline='') as f:
+                    f.write(t)
+                os.utime(p, (1000000000, 1000000000))
+                try:
+                    a, b = parse_pil_string(t), parse_pil_file(p)
+                    print('rewrite %d: file parse %s string parse' % (i, '==' if a == b else '!='))
+                except Exception as e:
+                    print('rewrite %d: %s' % (i, type(e).__name__))
+        finally:
+            if os.path.exists(p):
+                os.unlink(p)
+            os.rmdir(d)
     try:
         out = 'ok ' + PG.show(parse_pil_string(txt))
     except Exception as e:
